@@ -129,11 +129,52 @@ bool usable(Interp& in, long p) { return p >= 0 && static_cast<size_t>(p) < in.s
 
 } // namespace
 
-void registerAsync(std::map<std::string, Op>& ops)
+// which slot every operation creates / references: used by the `progd` variant, which lets go of every handle
+// (promise object, resolver, rejection) right after the last operation that names it — as a C++ program whose
+// temporaries and locals go out of scope would.  A promise reserved for a promise-returning callback is pinned
+// (the callback moves it out when it runs).
+struct Lifetimes {
+    std::vector<long> lastUse;      // per slot: index of the last operation naming it
+    std::vector<bool> pinned;
+    explicit Lifetimes(const std::vector<std::string>& w)
+    {
+        size_t i = 1; long opi = 0;
+        auto use = [&](long p, long at) { if (p >= 0 && static_cast<size_t>(p) < lastUse.size()) lastUse[p] = at; };
+        while (i < w.size()) {
+            std::vector<std::string> a;
+            while (i < w.size() && w[i] != ";") a.push_back(w[i++]);
+            ++i;
+            if (a.empty()) continue;
+            if (a[0] == "then" && a.size() >= 5) {
+                use(atol(a[1].c_str()), opi);
+                if (a[3].compare(0, 5, "prom:") == 0) { long q = atol(a[3].substr(5).c_str()); if (q >= 0 && static_cast<size_t>(q) < pinned.size()) pinned[q] = true; }
+            } else if ((a[0] == "resolve" || a[0] == "reject") && a.size() >= 2) use(atol(a[1].c_str()), opi);
+            else if ((a[0] == "all" || a[0] == "any" || a[0] == "allr") && a.size() >= 2) {
+                std::stringstream ss(a[1]); std::string t; while (std::getline(ss, t, ',')) use(atol(t.c_str()), opi);
+            }
+            if (a[0] == "new" || a[0] == "res" || a[0] == "rej" || a[0] == "then" || a[0] == "all" || a[0] == "any" || a[0] == "allr") {
+                lastUse.push_back(opi); pinned.push_back(false);
+            }
+            ++opi;
+        }
+    }
+};
+
+static std::string runProg(const std::vector<std::string>& w, bool drop)
 {
-    // prog <op> ; <op> ; ...
-    ops["prog"] = [](const std::vector<std::string>& w) -> std::string {
         Interp in;
+        Lifetimes life(w);
+        long opi = -1;
+        auto release = [&]() {
+            if (!drop) return;
+            for (size_t s = 0; s < in.slots.size() && s < life.lastUse.size(); ++s) {
+                if (life.lastUse[s] != opi) continue;
+                Slot& sl = in.slots[s];
+                sl.def.reset();
+                if (life.pinned[s]) continue;     // its promise object belongs to the callback that will return it
+                sl.pi.reset(); sl.pv.reset(); sl.p1.reset(); sl.p2.reset(); sl.p3.reset(); sl.p4.reset(); sl.pvec.reset(); sl.pa.reset();
+            }
+        };
         std::string outs;
         auto out = [&](const std::string& s) { if (!outs.empty()) outs += ","; outs += s; };
         size_t i = 1;
@@ -142,6 +183,8 @@ void registerAsync(std::map<std::string, Op>& ops)
             while (i < w.size() && w[i] != ";") a.push_back(w[i++]);
             ++i;
             if (a.empty()) continue;
+            release();
+            ++opi;
             try {
                 if (a[0] == "new") {
                     Slot s; auto def = std::make_shared<Async::Deferred<MV>>();
@@ -215,8 +258,21 @@ void registerAsync(std::map<std::string, Op>& ops)
             } catch (const Async::Error&) { out("T"); }
             catch (const std::exception& e) { out(std::string("X")); }
         }
+        release();
         std::string st;
-        for (auto& s : in.slots) st += in.stateOf(s);
+        if (!drop) for (auto& s : in.slots) st += in.stateOf(s);
         return outs + " | log=" + (in.log.empty() ? "-" : in.log) + " | st=" + (st.empty() ? "-" : st);
+}
+
+void registerAsync(std::map<std::string, Op>& ops)
+{
+    // prog <op> ; <op> ; ...          every handle is kept to the end (final states are reported)
+    // progd <op> ; <op> ; ...         every handle is let go right after its last use (no final states)
+    ops["prog"] = [](const std::vector<std::string>& w) -> std::string { return runProg(w, false); };
+    ops["progd"] = [](const std::vector<std::string>& w) -> std::string {
+        std::string dropped = runProg(w, true), kept = runProg(w, false);
+        auto upto = [](const std::string& x) { return x.substr(0, x.rfind(" | st=")); };
+        if (upto(dropped) != upto(kept)) return dropped + " LIFETIME-DIFF[" + upto(kept) + "]";   // what ran depends on who still holds a handle
+        return dropped;
     };
 }
